@@ -16,10 +16,14 @@ def absDot (a b : List Rat) : Rat := (List.zipWith (fun x y => absR (x * y)) a b
 /-- squared euclidean distance of two columns -/
 def sqDist (a b : List Rat) : Rat := (List.zipWith (fun x y => (x - y) * (x - y)) a b).foldl (· + ·) 0
 
-/-- `d` is an acceptable `double` for √S when S is exactly representable: d ≥ 0 and d² within 2⁻⁵¹·S of S
-    (a correctly rounded square root has relative error ≤ 2⁻⁵³, its square ≤ 2⁻⁵² + …) -/
-def sqrtOk (d S : Rat) : Bool :=
-  decide (0 ≤ d) && decide (absR (d * d - S) ≤ S / (2 : Rat) ^ (51 : Nat))
+/-- `d` is an acceptable `double` for the distance of two columns of length `dim` whose exact squared distance is `S`,
+    for `eigen_distance_callback` as written (norm of the difference vector), **without assuming that anything is exact**:
+    each difference `a_r - b_r` is one rounded subtraction of two doubles (relative error ≤ u = 2⁻⁵³, twice in the square),
+    each square is rounded (u), the sum of `dim` non-negative terms is rounded `dim - 1` times in any order (≤ (dim-1)u),
+    the square root is rounded (u, twice in d²): d² = S(1+θ), |θ| ≤ (1+u)^(dim+4) - 1 < (dim+5)·2⁻⁵³.
+    (The cached-norm variant of seeded change C13-s2 errs by 10⁻⁴ … 10⁻³ relative: more than 2³⁵ times this bound.) -/
+def sqrtOk (dim : Nat) (d S : Rat) : Bool :=
+  decide (0 ≤ d) && decide (absR (d * d - S) ≤ ((dim : Rat) + 5) * S / (2 : Rat) ^ (53 : Nat))
 
 /-- `k` is an acceptable `double` for the dot product K of two columns of length D: the standard error bound
     D·2⁻⁵²·Σ|aᵣbᵣ| (which is 0, i.e. equality, when nothing is rounded is not required here) -/
@@ -48,7 +52,7 @@ def judge (pts : List (List Rat)) (ks ds fs pk pd : List Rat) (exactKernel : Boo
       let d := ds.getD (i * n + j) 0
       if exactKernel && k ≠ dot a b then some s!"kernel({i},{j})"
       else if !dotOk dim k (dot a b) (absDot a b) then some s!"kernel({i},{j})"
-      else if !sqrtOk d (sqDist a b) then some s!"distance({i},{j})"
+      else if !sqrtOk dim d (sqDist a b) then some s!"distance({i},{j})"
       else if pk.getD (i * n + j) 0 ≠ preKernelEntry i j then some s!"precomputed_kernel({i},{j})"
       else if pd.getD (i * n + j) 0 ≠ preDistanceEntry i j then some s!"precomputed_distance({i},{j})"
       else none
